@@ -1,6 +1,7 @@
 package c11a
 
 import (
+	"container/heap"
 	"errors"
 	"fmt"
 	"io"
@@ -60,8 +61,86 @@ func rot(k int) func(rune) rune {
 	}
 }
 
+type intHeap []int
+
+func (h intHeap) Len() int           { return len(h) }
+func (h intHeap) Less(i, j int) bool { return h[i] < h[j] }
+func (h intHeap) Swap(i, j int)      { h[i], h[j] = h[j], h[i] }
+func (h *intHeap) Push(x interface{}) {
+	*h = append(*h, x.(int))
+}
+func (h *intHeap) Pop() interface{} {
+	old := *h
+	n := len(old)
+	x := old[n-1]
+	*h = old[0 : n-1]
+	return x
+}
+
+type upperWriter struct {
+	buf []byte
+}
+
+func (w *upperWriter) Write(p []byte) (int, error) {
+	for _, c := range p {
+		if c >= 'a' && c <= 'z' {
+			c -= 32
+		}
+		w.buf = append(w.buf, c)
+	}
+	return len(p), nil
+}
+
 func job(i int) {
-	switch hook.Choose(7) {
+	switch hook.Choose(13) {
+	case 7:
+		s := strings.FieldsFunc("a1b22c333d", func(r rune) bool {
+			hook.Y()
+			return r >= '0' && r <= '9'
+		})
+		k := strings.IndexFunc("hello world", func(r rune) bool {
+			return r == rune('l'+i)
+		})
+		hook.Ev("strings.FieldsFunc", i, strings.Join(s, "|"), k)
+	case 8:
+		b := byLen{"ccc", "a", "bb", "aa", "dddd", "ab", "b"}
+		sort.Stable(b)
+		n := sort.Search(100, func(k int) bool {
+			return k*k >= 50+i
+		})
+		hook.Ev("sort.Stable", i, strings.Join(b, ","), n)
+	case 9:
+		h := &intHeap{5, 2, 8}
+		heap.Init(h)
+		heap.Push(h, 3+i)
+		heap.Push(h, 1)
+		out := ""
+		for h.Len() > 0 {
+			out += fmt.Sprint(heap.Pop(h), " ")
+		}
+		hook.Ev("container/heap", i, out)
+	case 10:
+		var m sync.Map
+		for k := 0; k < 4; k++ {
+			m.Store(k, k*k+i)
+		}
+		sum := 0
+		m.Range(func(k, v interface{}) bool {
+			sum += k.(int)*100 + v.(int)
+			return true
+		})
+		hook.Ev("sync.Map.Range", i, sum)
+	case 11:
+		w := &upperWriter{}
+		n, err := fmt.Fprintf(w, "job %d of %s", i, "many")
+		io.WriteString(w, "!")
+		hook.Ev("io.Writer", i, string(w.buf), n, err == nil)
+	case 12:
+		p := sync.Pool{New: func() interface{} {
+			return &temp{100 + i}
+		}}
+		t := p.Get().(*temp)
+		hook.Ev("sync.Pool", i, t.Deg)
 	case 0:
 		xs := []int{5, 2, 8, 1, 9, 3}
 		xs = append(xs, i, 7-i)
